@@ -139,7 +139,12 @@ pub fn value_to_tokens(value: &ASN1Value) -> Result<String, GeneratorError> {
         ASN1Value::Boolean(b) => Ok(String::from(if *b { "true" } else { "false" })),
         ASN1Value::Integer(i) => Ok(i.to_string()),
         ASN1Value::String(s) => Ok(string_literal(s)),
-        ASN1Value::Real(r) => Ok(r.to_string()),
+        ASN1Value::Real(r) if r.is_finite() => Ok(r.to_string()),
+        ASN1Value::Real(_) => Err(GeneratorError {
+            details: "The real value exceeds the range of a 64-bit floating point number.".into(),
+            kind: crate::prelude::GeneratorErrorType::Unsupported,
+            ..Default::default()
+        }),
         ASN1Value::BitStringNamedBits(_) => Err(GeneratorError {
             top_level_declaration: None,
             details: "Named bits should be resolved by this point!".into(),
@@ -211,7 +216,10 @@ pub fn value_to_tokens(value: &ASN1Value) -> Result<String, GeneratorError> {
                 })
             })
             .map(|mut s| {
-                s.pop();
+                // the separator behind the last element; an empty list has none
+                if s.ends_with(',') {
+                    s.pop();
+                }
                 s + "]"
             }),
         ASN1Value::LinkedNestedValue {
